@@ -106,6 +106,7 @@ GuardM(mc, op, s, keys, m) ==
 Guard(mc, op, s, keys) == GuardM(mc, op, s, keys, TopMark(s))
 
 EnabledSeq(mc, s, keys) == LET m == TopMark(s) IN SelectSeq(Table(mc.P), LAMBDA op : GuardM(mc, op, s, keys, m))
+EnabledSeqM(mc, s, keys, m) == SelectSeq(Table(mc.P), LAMBDA op : GuardM(mc, op, s, keys, m))
 EnabledSetM(mc, s, keys, m) == {op \in TableSet(mc.P) : GuardM(mc, op, s, keys, m)}
 EnabledSet(mc, s, keys) == EnabledSetM(mc, s, keys, TopMark(s))
 
